@@ -15,7 +15,7 @@ From CM Require Import Base.Dict Model.Location Spec.LocationSpec Proofs.Locatio
   Generated.Tables.
 Local Open Scope Z_scope.
 
-Definition T_now : ltab := mkltab loc_tol_start loc_tol_end sonar_tuple_widen.
+Definition T_now : ltab := mkltab loc_tol_start loc_tol_end sonar_tuple_widen line_filter_rule.
 
 (** A node is handed to on_result_found iff it is a Call/Assign/ClassDef of the module, some result location equals its
     span within the tabulated tolerance (semgrep convention) and the line filter admits it; the changes reported are
@@ -24,7 +24,7 @@ Theorem C18_join_partial : forall rs excl inc nodes,
   (forall n, In n (on_result_found_nodes T_now FDefault (Some rs) excl inc nodes) <->
      In n nodes /\ default_kind (nkind n) = true /\
      (exists r l, In r rs /\ In l (rlocs r) /\ reports T_now (rcls r) (nkind n) (nspan n) l) /\
-     line_filter excl inc (nspan n) = true) /\
+     line_filter T_now excl inc (nspan n) = true) /\
   map ch_line (reported_changes T_now findings_attach_rule FDefault (Some rs) excl inc nodes) =
   map (fun n => pline (sstart (nspan n))) (on_result_found_nodes T_now FDefault (Some rs) excl inc nodes).
 Proof. intros. split; [intros n; apply join_iff|apply changes_of_join]. Qed.
